@@ -131,12 +131,18 @@ def cond_facts(c, m):
         if ld is not None:
             k = pkey(ld.ops[0], m)
             if k:
+                if (b.sval if b.ty != "i8" else b.uval) == ord("0") and k[1] == 0:
+                    # the first character of an optional "0x" prefix is examined at this position (whatever the outcome)
+                    eq_t.append(("pfx", k[0]))
+                    eq_f.append(("pfx", k[0]))
                 if (b.sval if b.ty != "i8" else b.uval) != 0:
                     eq_t.append(("nonnul", k[0], k[1]))
                     if (b.sval if b.ty != "i8" else b.uval) == 10:
                         eq_t.append(("isnl",))
                 else:
                     eq_f.append(("nonnul", k[0], k[1]))
+                    if k[1] == 0:
+                        eq_t.append(("pfx", k[0]))      # a NUL here: certainly no "0x" prefix at this position
         else:
             ld = ctype_byte(a)
             if ld is not None and b.uval == 0:
@@ -287,7 +293,9 @@ class Cursor:
 
     def phi_rename(self, blk, pred, S):
         """Facts about this block's phis derived from the state on the edge pred->blk."""
-        S2 = set(S)
+        # facts about a phi's own name describe the value it had on the previous visit: they must not survive its redefinition
+        phis = set(i.name for i in blk.insts if i.op == "phi")
+        S2 = set(f for f in S if not (len(f) > 1 and f[1] in phis))
         for i in blk.insts:
             if i.op != "phi":
                 break
@@ -311,6 +319,11 @@ class Cursor:
                         S2.add((f[0], i.name))
                     if f[0] == "pval" and f[1] == r:
                         S2.add(("pval", i.name, f[2] - o))
+                    # position reached by handling the optional prefix at r: either stepping over it (+2) or not (+0)
+                    if f[0] == "pfx" and f[1] == r and o in (0, 2):
+                        S2.add(("pfxok", i.name))
+                    if f[0] == "pfxok" and f[1] == r and o == 0:
+                        S2.add(("pfxok", i.name))
                 if ("instr", r, o) in S:
                     S2.add(("src", i.name))
         return S2
@@ -429,6 +442,27 @@ def check_return_edge(chk, m, fn, t, v, pred, blk, part, S):
                     detail = "returns 16*%s(byte at %s%+d) | %s(byte at %s%+d); cursor stored just past the pair: %s" % (
                         c1.callee, k1[0], k1[1], c2.callee, k2[0], k2[1], shape)
     chk.ob("H2.pair-value", where, shape, detail, t.loc, fn.name)
+    if pv:
+        droot = pv[0][1]
+        # the digits sit at (cursor stored) - 2: is that position the one reached by the prefix handling?
+        dig = None
+        if i is not None and i.op in ("or", "add"):
+            for o_ in i.ops:
+                x = o_.inst
+                while x is not None and x.op in ("mul", "shl", "zext", "sext", "trunc"):
+                    nc = [q for q in x.ops if not q.is_const_int()]
+                    x = nc[0].inst if nc else None
+                if x is not None and x.op == "call" and x.args:
+                    b_ = byte_of(x.args[0])
+                    if b_ is not None:
+                        kk = pkey(b_.ops[0], m)
+                        if kk and (dig is None or kk[1] < dig[1]):
+                            dig = kk
+        okp = dig is not None and dig[1] == 0 and (("pfxok", dig[0]) in S or ("pfx", dig[0]) in S)
+        chk.ob("H2.hex-prefix", where, okp,
+               "the digits parsed are the ones found after looking for an optional \"0x\" at that very position (after any white space)"
+               if okp else "the optional \"0x\" prefix is not looked for at the position of the digits (it is tested before the white "
+               "space is skipped, or not at all): \" 0x12\" is not parsed", t.loc, fn.name)
     NL = ("no-nl",)
     chk.ob("H2.line-prefix", where, NL in S,
            "a byte is only parsed after the current line's 'address:' prefix has been looked for: every path that moves past a "
